@@ -127,6 +127,8 @@ def validate_trace(module, trace_path, name, timeout=1800, xmx="4g"):
     if not cons:
         sys.stderr.write(r["out"][-5000:])
         raise ToolError("trace validation of %s did not run to the end (TLC error / stuck)" % trace_path)
+    if int(cons.group(1)) == 0:
+        raise ToolError("empty trace %s" % trace_path)
     log("validated %s: %s lines, %d rejected, %.1fs" % (os.path.basename(trace_path), cons.group(1), len(mism), r["wall"]))
     return {"lines": int(cons.group(1)), "mismatch": sorted(set(mism)), "states": r["distinct"],
             "transitions": r["generated"], "wall_s": round(r["wall"], 1)}
